@@ -12,9 +12,12 @@
                                               _cleanup_server(); server = None
      web._run_app                             runner.setup() ; try: sites... sleep forever  finally: runner.cleanup()
 
-   The application tree is fixed: root "R" with contexts r1, r2 and one sub-application "S"
-   (add_subapp) with contexts s1, s2; every app has one user handler on on_startup (Xsu),
-   on_shutdown (Xsh) and on_cleanup (Xcl), registered on the root before add_subapp().
+   The application tree is the constant Tree:
+     "one"     root R (contexts r1, r2) with one sub-application S (s1, s2)
+     "two"     root R (r1) with two sibling sub-applications S (s1) and U (u1), added in that order
+     "nested"  root R (r1) -> sub-application S (s1) -> sub-sub-application U (u1)
+   every app has one user handler on on_startup (Xsu), on_shutdown (Xsh) and on_cleanup (Xcl),
+   registered before the app's add_subapp() calls.
 
    The interpreter is a stack machine: one frame per active coroutine call
    (send / ctxstart / ctxclean / setup / rcleanup / appcleanup), `raising` = an exception
@@ -41,32 +44,40 @@
 EXTENDS Naturals, Sequences, FiniteSets, TLC
 
 CONSTANTS SetupInTry, UnfrozenCleansSubs, CleanupCollects, ShutdownContained, RunAppCatchesBase,
-          MaxStartFaults, Entries
+          MaxStartFaults, Entries, Tree, KindsAllowed
 
 VARIABLE s
 vars == <<s>>
 
 Root == "R"
-Apps == {"R", "S"}
-AppSeq == <<"R", "S">>                                  \* the tree in pre-order
-Subs == [a \in Apps |-> IF a = "R" THEN <<"S">> ELSE <<>>]
-Ctxs == [a \in Apps |-> IF a = "R" THEN <<"r1", "r2">> ELSE <<"s1", "s2">>]
-AllCtx == {"r1", "r2", "s1", "s2"}
-AppOf(c) == IF c \in {"r1", "r2"} THEN "R" ELSE "S"
-HName == [a \in Apps |-> IF a = "R" THEN [startup |-> "Rsu", shutdown |-> "Rsh", cleanup |-> "Rcl"]
-                                     ELSE [startup |-> "Ssu", shutdown |-> "Ssh", cleanup |-> "Scl"]]
-StartSteps == AllCtx \cup {"Rsu", "Ssu"}
-ShutSteps == {"Rsh", "Ssh"}
-CleanSteps == AllCtx \cup {"Rcl", "Scl"}
-AllEntries == {"Runner", "RunnerNoExplicitCleanup", "RunApp"}
-
 Range(q) == {q[i] : i \in 1..Len(q)}
 Count(q, x) == Cardinality({i \in 1..Len(q) : q[i] = x})
+Apps == IF Tree = "one" THEN {"R", "S"} ELSE {"R", "S", "U"}
+AppSeq == IF Tree = "one" THEN <<"R", "S">> ELSE <<"R", "S", "U">>       \* the tree in pre-order
+Subs == [a \in Apps |->
+           CASE Tree = "one" -> (IF a = "R" THEN <<"S">> ELSE <<>>)
+             [] Tree = "two" -> (IF a = "R" THEN <<"S", "U">> ELSE <<>>)
+             [] Tree = "nested" -> (IF a = "R" THEN <<"S">> ELSE IF a = "S" THEN <<"U">> ELSE <<>>)]
+Ctxs == [a \in Apps |->
+           IF Tree = "one" THEN (IF a = "R" THEN <<"r1", "r2">> ELSE <<"s1", "s2">>)
+           ELSE (IF a = "R" THEN <<"r1">> ELSE IF a = "S" THEN <<"s1">> ELSE <<"u1">>)]
+AllCtx == UNION {Range(Ctxs[a]) : a \in Apps}
+AppOf(c) == CHOOSE a \in Apps : c \in Range(Ctxs[a])
+HName == [a \in Apps |->
+            CASE a = "R" -> [startup |-> "Rsu", shutdown |-> "Rsh", cleanup |-> "Rcl"]
+              [] a = "S" -> [startup |-> "Ssu", shutdown |-> "Ssh", cleanup |-> "Scl"]
+              [] a = "U" -> [startup |-> "Usu", shutdown |-> "Ush", cleanup |-> "Ucl"]]
+SuNames == {HName[a].startup : a \in Apps}
+ClNames == {HName[a].cleanup : a \in Apps}
+StartSteps == AllCtx \cup SuNames
+ShutSteps == {HName[a].shutdown : a \in Apps}
+CleanSteps == AllCtx \cup ClNames
+AllEntries == {"Runner", "RunnerNoExplicitCleanup", "RunApp"}
 
 (* ------------------------------------------------------------------------------ *)
 Frame(k, sig, app, i) == [k |-> k, sig |-> sig, app |-> app, i |-> i, errs |-> 0]
 
-Kinds == {"exc", "base"}
+Kinds == KindsAllowed            \* subset of {"exc", "base"}
 InitState(e, fs, sf, fh, fc, sk, ck) ==
     [entry |-> e, failStart |-> fs, siteFails |-> sf, failShut |-> fh, failClean |-> fc,
      startKind |-> sk, cleanKind |-> ck,
@@ -285,8 +296,8 @@ ReverseOrder ==
              /\ s.exited[i] \in Entered(s) /\ s.exited[j] \in Entered(s))
         => Pos(s.entered, s.exited[i]) > Pos(s.entered, s.exited[j])
 
-StartupFailed(st) == \E x \in st.failed : x[1] = "enter" \/ (x[1] = "call" /\ x[2] \in {"Rsu", "Ssu"})
-TeardownFailed(st) == \E x \in st.failed : x[1] = "exit" \/ (x[1] = "call" /\ x[2] \notin {"Rsu", "Ssu"})
+StartupFailed(st) == \E x \in st.failed : x[1] = "enter" \/ (x[1] = "call" /\ x[2] \in SuNames)
+TeardownFailed(st) == \E x \in st.failed : x[1] = "exit" \/ (x[1] = "call" /\ x[2] \notin SuNames)
 \* (stated for ordinary exceptions: a cancellation / exit request is not an error to report)
 ErrorsSurface ==
     Finished(s) => /\ (StartupFailed(s) /\ s.startKind = "exc") => s.setupRes = "raised" /\ s.result = "raised"
@@ -303,7 +314,7 @@ Dev_ShutdownHandlerErrorSkipsCleanup(st) ==
     /\ st.setupRes = "ok" /\ \E x \in st.failed : x[1] = "call" /\ x[2] \in ShutSteps
     /\ st.exited = <<>> /\ Missing(st) # {}
 Dev_CleanupErrorSkipsLaterExits(st) ==
-    /\ st.setupRes = "ok" /\ \E x \in st.failed : x[1] = "exit" \/ (x[1] = "call" /\ x[2] \in {"Rcl", "Scl"})
+    /\ st.setupRes = "ok" /\ \E x \in st.failed : x[1] = "exit" \/ (x[1] = "call" /\ x[2] \in ClNames)
     /\ Missing(st) # {} /\ Missing(st) \subseteq SubCtx
 
 AsCodedExplained ==
